@@ -59,7 +59,7 @@ CHECKS = {
         text="1.5M (quick) / 150M (thorough) layouts x selection histories through the public NodeSelector trait, plus 60k / 3M histories on one real node where membership snapshots (joins, leaves, whole data centres leaving, same-count replacements and moves) alternate with DatacakeNode::select_nodes.",
         note="Needs hook H-rng for reproducible data-centre choice; the oracle holds for every RNG outcome.", ref="3 C15"),
     "C18": dict(engine="E2-actor+E3-cluster", technique=PBT + " (generated yield schedules on a current-thread runtime + sampled OS schedules on 4 workers; node restart under replication traffic with simulated storage latency)",
-        text="200k generated schedules on a current-thread runtime (order fixed by generated yields; a quarter of the tasks is dropped at a generated suspension point) and 300 x 10 runs on a 4-worker runtime, plus 60k cluster histories in which a node holding persisted keyspaces starts while its peers replicate to it at generated instants around the load of the persisted state (storage reads answer 0-9 simulated ms late); every entry the node's storage holds afterwards must be in the set a fresh lookup serialises, and a keyspace with an acknowledged mutation must be listed in the keyspace info peers poll.",
+        text="200k generated schedules on a current-thread runtime (order fixed by generated yields; a quarter of the tasks is dropped at a generated suspension point) and 300 x 10 runs on a 4-worker runtime, plus 40k cases in which local first uses race the repair path's first sight of the same keyspace names, plus 60k cluster histories in which a node holding persisted keyspaces starts while its peers replicate to it at generated instants around the load of the persisted state (storage reads answer 0-9 simulated ms late); every entry the node's storage holds afterwards must be in the set a fresh lookup serialises, and a keyspace with an acknowledged mutation must be listed in the keyspace info peers poll.",
         note="Schedules are sampled, not enumerated; a race needing preemption inside a non-awaiting section would be missed.", ref="3 C18"),
 }
 
